@@ -1,6 +1,9 @@
 package validate
 
 // VerifReset clears the process-wide order-validation state (simulator builds only).
+// Written so that it does not depend on the key and value types of the map.
 func VerifReset() {
-	m = make(map[uint64]uint32)
+	for k := range m {
+		delete(m, k)
+	}
 }
